@@ -12,6 +12,7 @@ CONSTANTS
   Filts = {"none"}
   Ops = {"pub", "rem", "exp"}
   MaxJumps = 0
+  EpochCheck = TRUE
   Pres = {2}
   N0s = {0}
   Contig = FALSE
